@@ -30,6 +30,7 @@ type csArgs struct {
 	D   int   `json:"d"`
 	N   int   `json:"n"`
 	Pos int   `json:"pos"`
+	Dup int   `json:"dup"`
 }
 
 type csObs struct {
@@ -57,6 +58,7 @@ type csWorld struct {
 	ids      []int                    // model ids of the blocks above the birthday block, by position
 	nextID   int
 	lastDisc *mockchain.Block
+	lastRem  []*mockchain.Block // blocks removed by the latest disconnection, top first
 }
 
 func replayChainSync(idx int, line []byte, prop string, seed int, root string, rep *common.Report) {
@@ -206,7 +208,12 @@ func (w *csWorld) apply(op string, a *csArgs) error {
 	case "Reorg":
 		removed := e.chain.Disconnect(a.D)
 		w.lastDisc = removed[len(removed)-1]
+		w.lastRem = removed
 		w.ids = w.ids[:len(w.ids)-a.D]
+		if a.Dup > 0 && a.Dup <= len(removed) {
+			// the notification for an already disconnected block is repeated before the new branch arrives
+			e.chain.SendStaleDisconnect(removed[a.Dup-1])
+		}
 		for i := 0; i < a.N; i++ {
 			if i == 0 {
 				w.extend(a.Txs)
@@ -214,17 +221,26 @@ func (w *csWorld) apply(op string, a *csArgs) error {
 				w.extend(nil)
 			}
 		}
+	case "Shrink":
+		removed := e.chain.Disconnect(a.D)
+		w.lastDisc = removed[len(removed)-1]
+		w.lastRem = removed
+		w.ids = w.ids[:len(w.ids)-a.D]
 	case "Flap":
 		removed := e.chain.Disconnect(a.D)
 		w.lastDisc = nil
+		w.lastRem = nil
 		back := make([]*mockchain.Block, 0, len(removed))
 		for i := len(removed) - 1; i >= 0; i-- {
 			back = append(back, removed[i])
 		}
 		e.chain.Reconnect(back)
 	case "DupDisconnect":
-		if w.lastDisc != nil {
-			e.chain.SendStaleDisconnect(w.lastDisc)
+		want := int32(initialTip + a.Pos - 1)
+		for _, b := range w.lastRem {
+			if b.Height == want {
+				e.chain.SendStaleDisconnect(b)
+			}
 		}
 	case "StaleDisconnect":
 		h := int32(initialTip + a.Pos - 1)
@@ -235,6 +251,7 @@ func (w *csWorld) apply(op string, a *csArgs) error {
 		e.chain.DuringRescan = func() {
 			removed := e.chain.Disconnect(a.D)
 			w.lastDisc = removed[len(removed)-1]
+			w.lastRem = removed
 			w.ids = w.ids[:len(w.ids)-a.D]
 			for i := 0; i < a.N; i++ {
 				if i == 0 {
